@@ -128,7 +128,18 @@ def shadow_input(m, result, k):
     src = result if (k % 4 == 3 and result is not None) else m
     if src is result and S.ctx is not None:
         S.ctx.count("shadow_inputs_relabelled_canonical_graph")
-    m2, perm = harness_relabel(src, S.rng)
+    perm = None
+    if k % 5 == 2:
+        # atoms numbered sparsely / from 1 / negatively (a fragment cut out of a larger graph, a file's own index values kept as labels)
+        nodes = list(src.nodes)
+        mode = S.rng.choice(["sparse", "one-based", "negative", "huge"])
+        img = {"sparse": [7 * i + 3 for i in range(len(nodes))], "one-based": list(range(1, len(nodes) + 1)),
+               "negative": [-(i + 1) for i in range(len(nodes))], "huge": [10 ** 12 + 13 * i for i in range(len(nodes))]}[mode]
+        S.rng.shuffle(img)
+        perm = dict(zip(nodes, img))
+        if S.ctx is not None:
+            S.ctx.count("shadow_inputs_with_noncontiguous_labels")
+    m2, perm = harness_relabel(src, S.rng, perm)
     if k % 3 == 1:
         stale_partition(m2, S.rng)
     return m2, perm
